@@ -244,7 +244,11 @@ def expand(case):
         pat = g["pattern"]
         m = min(g.get("nulls_first", 0), g["n"])  # the first m rows are all null
         runs = g.get("runs", 1)  # every pattern row is repeated `runs` times in a row (blocks of one value per morsel)
-        return [[None] * len(pat[0]) for _ in range(m)] + [list(pat[(i // runs) % len(pat)]) for i in range(g["n"] - m)]
+        tail = g.get("tail") or []  # the last len(tail) of the n rows, spelled out (a last morsel with values of its own)
+        body = max(g["n"] - len(tail), 0)
+        m = min(m, body)
+        return ([[None] * len(pat[0]) for _ in range(m)] + [list(pat[(i // runs) % len(pat)]) for i in range(body - m)]
+                + [list(r) for r in tail[:g["n"]]])
     if "appends" in case:  # a sequence case: everything the frame ever holds
         return list(case["rows"]) + [r for chunk in case["appends"] for r in chunk]
     return case["rows"]
@@ -303,7 +307,9 @@ def valid_case(c):
                 return False
             if "runs" in g and (not isinstance(g["runs"], int) or isinstance(g["runs"], bool) or g["runs"] < 1):
                 return False
-            rows = g["pattern"]
+            if "tail" in g and (not isinstance(g["tail"], list) or len(g["tail"]) > min(g["n"], 2000)):
+                return False
+            rows = g["pattern"] + g.get("tail", [])
         else:
             rows = c["rows"]
         if not isinstance(rows, list) or not rows:
@@ -1190,8 +1196,10 @@ def check_case(case):
             return ("operand-changed", text, ch[0])
         return None
 
-    def whole_clause(sum_cols, label):
-        """count/missing/min/max of a sum = those of the whole column; its histogram holds every non-null value once."""
+    def whole_clause(sum_cols, label, operands=None):
+        """count/missing/min/max of a sum = those of the whole column; its histogram holds every non-null value once;
+        `operands` (the column dicts of the profiles that were added, per operand): the distinct-count estimate of the sum is
+        exact below the sketch size."""
         for j, k in enumerate(kinds):
             d = sum_cols[j]
             if d.get("absent") or core_of(d) != core_of(cols[j]):
@@ -1209,6 +1217,37 @@ def check_case(case):
             if t is not None:
                 return ("sum-mfv", "column %d (%s): most-frequent list of %s: %s" % (j, k, label, t), j)
         res["checks"]["sum-listed-counts"] = res["checks"].get("sum-listed-counts", 0) + 1
+        # the distinct-count estimate of the sum, below the sketch size.  Judged where the operands' own sketches say that
+        # the sum has what it needs: every operand holds one hash per distinct value of its batch (its own estimate is
+        # exact) and together they hold exactly as many different hashes as the column has distinct values — no two values
+        # share a hash (open finding K06) and no value has two texts (1.0 / 1.00, one instant in two cell forms).
+        for j, k in enumerate(kinds):
+            d = sum_cols[j]
+            if operands is None or k not in NUMERIC + TEMPORAL + ("VARCHAR",) or d.get("absent") or "raised" in d:
+                continue
+            nn = [r[j] for r in rows if r[j] is not None]
+            if not nn or non_finite(k, nn):
+                continue
+            distinct = len(set(nn)) if k == "VARCHAR" else len({exact(k, v) for v in nn})
+            if distinct >= consts()["kvm"]:
+                continue
+            union = set()
+            usable = True
+            for op in operands:
+                o = op[j]
+                if o.get("absent") or "raised" in o:
+                    continue
+                if len(o["kmv"]) != len(set(o["kmv"])) or not all(isinstance(h, int) and not isinstance(h, bool) for h in o["kmv"]):
+                    usable = False
+                union |= set(o["kmv"])
+            if not usable or len(union) != distinct:
+                res["checks"]["sum-cardinality-skipped"] = res["checks"].get("sum-cardinality-skipped", 0) + 1
+                continue
+            res["checks"]["sum-cardinality"] = res["checks"].get("sum-cardinality", 0) + 1
+            if d["card"] != distinct:
+                return ("sum-cardinality", "column %d (%s): the distinct-count estimate of %s is %r for %d distinct values (below the sketch size; "
+                        "the sketches that were added hold %d different hashes between them, %s)"
+                        % (j, k, label, d["card"], distinct, len(union), " + ".join(str(len(op[j].get("kmv", []))) for op in operands)), j)
         return None
 
     sides = {}
@@ -1226,7 +1265,7 @@ def check_case(case):
                 sums = [_column_dict(ps.column("c%d" % j)) for j in range(nc)]
                 parts = [[_column_dict(pa.column("c%d" % j)), _column_dict(pb.column("c%d" % j))] for j in range(nc)]
                 res["adds"].append((cut, parts, sums))
-                f = whole_clause(sums, "%s + %s" % (la, lb))
+                f = whole_clause(sums, "%s + %s" % (la, lb), operands=[[p[0] for p in parts], [p[1] for p in parts]])
                 if f is None and rows:
                     f = entries_clause(ps, nc, "%s + %s: " % (la, lb))
                 f = f or operands_unchanged(ops, "adding %s + %s" % (la, lb))
@@ -1290,8 +1329,9 @@ def check_case(case):
                 ops = [(la, pa, snapshot(pa, nc), 0, c1), (lm, pm, snapshot(pm, nc), c1, c2), (lc, pc, snapshot(pc, nc), c2, len(rows))]
                 left = (pa + pm) + pc
                 right = pa + (pm + pc)
-                f = (whole_clause([_column_dict(left.column("c%d" % j)) for j in range(nc)], "(%s + %s) + %s" % (la, lm, lc))
-                     or whole_clause([_column_dict(right.column("c%d" % j)) for j in range(nc)], "%s + (%s + %s)" % (la, lm, lc))
+                three = [[_column_dict(p_.column("c%d" % j)) for j in range(nc)] for p_ in (pa, pm, pc)]
+                f = (whole_clause([_column_dict(left.column("c%d" % j)) for j in range(nc)], "(%s + %s) + %s" % (la, lm, lc), operands=three)
+                     or whole_clause([_column_dict(right.column("c%d" % j)) for j in range(nc)], "%s + (%s + %s)" % (la, lm, lc), operands=three)
                      or operands_unchanged(ops, "adding three batch profiles in both groupings"))
                 if f is not None:
                     res["failure"] = f
@@ -1355,7 +1395,7 @@ def _short(x):
     return t if len(t) <= 160 else t[:157] + "..."
 
 
-SUM_CLAUSES = ("additive", "add-raised", "operand-changed", "sum-unrepeatable", "sum-histogram", "sum-mfv")
+SUM_CLAUSES = ("additive", "add-raised", "operand-changed", "sum-unrepeatable", "sum-histogram", "sum-mfv", "sum-cardinality")
 
 
 def shrink_case(case, what):
@@ -1377,6 +1417,8 @@ def shrink_case(case, what):
                 c2["arrow"] = [c["arrow"][j]]
             if "gen" in c:
                 c2["gen"] = dict(c["gen"], pattern=[[r[j]] for r in c["gen"]["pattern"]])
+                if "tail" in c["gen"]:
+                    c2["gen"]["tail"] = [[r[j]] for r in c["gen"]["tail"]]
             else:
                 c2["rows"] = [[r[j]] for r in c["rows"]]
             if "appends" in c:
@@ -1482,7 +1524,7 @@ def evaluate(ctx, cases):
         if n >= bsz - 1:
             ctx.hit("morsels:%s:%s" % (skind, "batch-1" if n == bsz - 1 else "batch" if n == bsz else "batch+1" if n == bsz + 1
                                        else "2*batch+3" if n == 2 * bsz + 3 else "%d..%d batches" % (n // bsz, n // bsz + 1)))
-        for key in ("operand-snapshots", "three-batches", "sum-listed-counts"):
+        for key in ("operand-snapshots", "three-batches", "sum-listed-counts", "sum-cardinality", "sum-cardinality-skipped"):
             if (res.get("checks") or {}).get(key):
                 ctx.hit("sum:" + key, (res.get("checks") or {}).get(key))
         if (res.get("checks") or {}).get("twin"):
@@ -1492,6 +1534,10 @@ def evaluate(ctx, cases):
                     + (":other-schema-kind" if tw.get("schema", c.get("schema")) != c.get("schema") else ""))
         if "gen" in c and c["gen"].get("runs", 1) > 1:
             ctx.hit("morsels:one-value-per-morsel")
+        if "overlap" in c:
+            how = "frame above the morsel size" if "gen" in c else "profiles added by hand"
+            ctx.hit("overlapping-sketches:%s:%s" % (how, c["overlap"].split(":", 1)[1]))
+            ctx.hit("overlapping-sketches:%s:%s" % (how, c["overlap"].split(":", 1)[0]))
         for j, k in enumerate(kinds):
             if k == "VARCHAR":
                 for r in rows[:400]:
@@ -2187,6 +2233,70 @@ def twin_cases():
     return out
 
 
+OVERLAP_D = (1, 2, 15, 16, 17, 24, 31, 32, 33, 40)
+OVERLAP_KINDS = ["INTEGER", "VARCHAR", "TIMESTAMP"]
+
+
+def _overlap_batches(d, overlap, operands):
+    """Index sets (into d distinct values) of `operands` batches: 'full' — every batch holds all d values; 'half' — each batch
+    lacks a different stretch of about d/4 (d/3) values, the rest recur in all of them; 'disjoint' — the d values are dealt out.
+    Every value occurs in some batch; None when the shape does not exist for this d."""
+    ix = list(range(d))
+    if overlap == "full":
+        return [ix] * operands
+    if d < operands:
+        return None
+    if overlap == "disjoint":
+        step = -(-d // operands)
+        return [ix[i * step: (i + 1) * step] for i in range(operands)]
+    gap = max(d // (operands + 2), 1)
+    return [[i for i in ix if not (b * gap <= i < (b + 1) * gap)] for b in range(operands)]
+
+
+def _overlap_values(kind, d):
+    if kind == "INTEGER":
+        return [i - 5 for i in range(d)]
+    if kind == "VARCHAR":
+        return ["shop-%d" % i for i in range(d)]
+    return [86400 * i + 7 for i in range(d)]  # TIMESTAMP: epoch seconds
+
+
+def overlap_sum_cases(ctx):
+    """Sums of batch profiles whose sketches overlap: columns (integer, text, temporal side by side) with d distinct values, d
+    around half the sketch size and the sketch size, recurring in two or three batches — disjoint, half shared, all shared.
+    By hand (profile + profile, both groupings of three) for the whole grid; as frames above the morsel size (the first
+    morsels cycle through the first batch's values, the last morsel is spelled out) for a part of it (quick) / all (thorough)."""
+    kvm, b = consts()["kvm"], consts()["batch"]
+    grid = sorted({1, 2, kvm // 2 - 1, kvm // 2, kvm // 2 + 1, (3 * kvm) // 4, kvm - 1, kvm, kvm + 1, kvm + 8} | set(OVERLAP_D))
+    thorough = ctx.scale(0, 1) == 1
+    # quick tier: every d x overlap with two operands by hand, three operands around the sketch size; three frames above the morsel size
+    quick_big = {((3 * kvm) // 4, "full", 2), (kvm - 1, "half", 2), (kvm // 2 + 1, "full", 3)}
+    quick_three = {kvm // 2 + 1, (3 * kvm) // 4, kvm - 1, kvm + 1}
+    vals = {k: _overlap_values(k, max(grid)) for k in OVERLAP_KINDS}
+    out = []
+    for d in grid:
+        for overlap in ("disjoint", "half", "full"):
+            for operands in (2, 3):
+                sets = _overlap_batches(d, overlap, operands)
+                if sets is None or (operands == 3 and not thorough and d not in quick_three):
+                    continue
+                batches = [[[vals[k][i] for k in OVERLAP_KINDS] for i in ixs] for ixs in sets]
+                label = "d=%d:%s:%d operands" % (d, overlap, operands)
+                rows = [r for bt in batches for r in bt]
+                cuts, at = [], 0
+                for bt in batches[:-1]:
+                    at += len(bt)
+                    cuts.append(at)
+                out.append({"kinds": list(OVERLAP_KINDS), "rows": rows, "cuts": cuts, "overlap": label})
+                if thorough or (d, overlap, operands) in quick_big:
+                    # the first operands-1 morsels cycle through the first batch's values (each holds all of them), the last
+                    # morsel is the last batch, every value twice
+                    tail = [r for r in batches[-1] for _ in range(2)]
+                    out.append({"kinds": list(OVERLAP_KINDS), "gen": {"n": b * (operands - 1) + len(tail), "pattern": batches[0], "tail": tail},
+                                "overlap": label})
+    return out
+
+
 def three_batch_cases():
     """Three batches whose first two share no value and whose third repeats one of them (a | b | a), added by hand in both
     groupings: a sum that holds values and lists none must not adopt a later batch's list with that batch's counts."""
@@ -2349,6 +2459,12 @@ def run(ctx):
     ctx.note("morsel_frames", "%d frames at and above the morsel size %d (sizes %r) over list-of-names, dictionary-built, RelationSchema "
              "and arrow-backed frames; arrow reader batch %d" % (len(mc), consts()["batch"], [consts()["batch"] - 1, consts()["batch"],
                                                                  consts()["batch"] + 1, 2 * consts()["batch"] + 3], reader_batch()))
+    oc = overlap_sum_cases(ctx)
+    evaluate(ctx, oc)
+    lap("overlapping-sketches")
+    ctx.note("overlapping_sketches", "%d sums of batch profiles over columns with d distinct values (d in %r) recurring in 2 and 3 batches "
+             "(disjoint / half / all shared), integer, text and temporal columns side by side: %d by hand, %d as frames above the morsel size"
+             % (len(oc), sorted({int(c["overlap"].split(":")[0][2:]) for c in oc}), sum(1 for c in oc if "gen" not in c), sum(1 for c in oc if "gen" in c)))
     cc = collision_cases()
     evaluate(ctx, cc)
     lap("collisions")
@@ -2374,8 +2490,9 @@ def run(ctx):
     lap("known+big")
     n_random = ctx.scale(2500, 30000)
     done = 0
-    while done < n_random and ctx.time_left() > ctx.scale(12, 60):
-        k = min(500, n_random - done)
+    while done < n_random and (ctx.time_left() > ctx.scale(12, 60) or done == 0):
+        # (the deterministic streams above always run; whatever they cost, one batch of random cases follows them)
+        k = min(500 if ctx.time_left() > ctx.scale(12, 60) else 250, n_random - done)
         evaluate(ctx, [random_sequence(ctx) if i % 6 == 5 else random_case(ctx) for i in range(k)])
         done += k
     lap("random")
